@@ -130,6 +130,9 @@ def t4(ctx):
         if key not in EXPECTED_IMPLS:
             ctx.violate(im['self_ty'], None, 'new explicit impl of auto trait %s for %s (not in the confirmed table)' % key, at=im.get('span'), sig='impl:' + tr)
             continue
+        extra = [q for q in im['preds'] if q not in ('T: std::marker::Send', 'T: std::marker::Sized')]
+        if extra:
+            ctx.violate(im['self_ty'], None, 'unsafe impl %s for %s carries the additional bound(s) %s: the type stops being Send for message types that are Send (futures would no longer run on multi-threaded executors)' % (tr, im['self_ty'], extra), at=im.get('span'), sig='extra-bound:' + tr)
         if 'T: std::marker::Send' not in im['preds']:
             ctx.violate(im['self_ty'], None, 'unsafe impl %s for %s lost its `T: Send` bound: safe code could move a non-Send value across threads (predicates: %s)' % (tr, im['self_ty'], im['preds']), at=im.get('span'), sig='bound:' + tr)
     for key in EXPECTED_IMPLS:
